@@ -253,7 +253,17 @@ class Ranges:
         if not f or "hir" not in f:
             return None
         body = peel(f["hir"]["value"])
+        while body.get("k") == "Block" and not body.get("stmts") and body.get("expr") is not None:
+            body = peel(body["expr"])
         vals = []
+        if body.get("k") == "Cast" and peel(body["e"]).get("k") == "Path" and peel(body["e"]).get("res") == "self" and f.get("param_tys"):
+            # `self as <int>` on a field-less enum: the discriminants
+            adt = self.F.adts.get(f["param_tys"][0].lstrip("&"))
+            if adt and adt.get("kind") == "enum" and all("discr" in v and not v["fields"] for v in adt["variants"]):
+                ds = [v["discr"] for v in adt["variants"]]
+                self._summ[path] = (min(ds), max(ds))
+                return self._summ[path]
+            return None
         if body.get("k") == "Match":
             for a in body["arms"]:
                 v = lit_value(a["body"])
